@@ -22,7 +22,8 @@ Inductive hval :=
 | HL (l : list hval)
 | HM (l : list (str * hval))        (* entries in iteration order *)
 | HFmt (cell : bool) (colspan : N) (style : sty) (v : hval)
-| HLnk (link : str) (v : hval).
+| HLnk (link : str) (v : hval)
+| HFile (name mime b64 size : str). (* export.File: name, MimeType, base64 of the data and the byteSize text (both Go's) *)
 
 Definition s_table : str := [116; 97; 98; 108; 101].
 Definition s_tr : str := [116; 114].
@@ -35,6 +36,15 @@ Definition s_blank : str := [95; 98; 108; 97; 110; 107].
 Definition s_style : str := [115; 116; 121; 108; 101].
 Definition s_class : str := [99; 108; 97; 115; 115].
 Definition s_colspan : str := [99; 111; 108; 115; 112; 97; 110].
+Definition s_download : str := [100; 111; 119; 110; 108; 111; 97; 100].
+Definition s_data : str := [100; 97; 116; 97; 58].                                   (* data: *)
+Definition s_b64 : str := [59; 98; 97; 115; 101; 54; 52; 44].                        (* ;base64, *)
+Definition s_octet : str :=                                                           (* application/octet-stream *)
+  [97;112;112;108;105;99;97;116;105;111;110;47;111;99;116;101;116;45;115;116;114;101;97;109].
+Definition s_File : str := [70; 105; 108; 101; 58; 32].                              (* File:  *)
+Definition file_href (mime b64 : str) : str :=
+  s_data ++ (match mime with [] => s_octet | _ => mime end) ++ s_b64 ++ b64.
+Definition file_text (name size : str) : str := s_File ++ name ++ [32; 40] ++ size ++ [41].
 Definition s_Link : str := [76; 105; 110; 107].
 Definition s_more : str := [109; 111; 114; 101; 46; 46; 46].
 Definition s_plainList : str := [112; 108; 97; 105; 110; 76; 105; 115; 116].
@@ -226,6 +236,9 @@ Fixpoint to_html (v : hval) (st : sty) (cls : list str) {struct v} : res :=
   | HLnk l inner =>
       bind (to_html inner st cls) (fun o cls1 => Some (OOpen s_a :: OAttr s_href l :: o ++ [OClose], cls1))
   | HFloat s => Some ([OWrite s], cls)
+  | HFile name mime b64 size =>
+      Some ([OOpen s_a; OAttr s_href (file_href mime b64); OAttr s_download name;
+             OWrite (file_text name size); OClose], cls)
   | HS s => Some (html_string inline s st cls)
   | HM l =>
       let '(a, cls0) := style_attr inline st cls in
@@ -267,7 +280,7 @@ Definition to_html_doc (tt ta : esc_table) (maxl : N) (inline : bool) (v : hval)
 
 (* the constant element and attribute names of ToHtml *)
 Definition html_elems : list str := [s_table; s_tr; s_td; s_a; s_span].
-Definition html_attrs : list str := [s_href; s_target; s_style; s_class; s_colspan; [100; 111; 119; 110; 108; 111; 97; 100]].
+Definition html_attrs : list str := [s_href; s_target; s_style; s_class; s_colspan; s_download].
 
 Definition mem_str (s : str) (l : list str) : bool := existsb (str_eqb s) l.
 
@@ -303,13 +316,14 @@ Fixpoint legal_h (v : hval) : bool :=
   | HM l => forallb (fun kv => legal (fst kv) && legal_h (snd kv)) l
   | HFmt _ _ st v => legal_sty st && legal_h v
   | HLnk l v => legal l && legal_h v
+  | HFile name mime b64 size => legal name && legal mime && legal b64 && legal size
   end.
 
 (* no plainList style anywhere: plainList writes list elements side by side, i.e. mixed content, into which
    PrettyPrint puts its line breaks and indentation *)
 Fixpoint pfree (v : hval) : bool :=
   match v with
-  | HS _ | HFloat _ => true
+  | HS _ | HFloat _ | HFile _ _ _ _ => true
   | HL l => forallb pfree l
   | HM l => forallb (fun kv => pfree (snd kv)) l
   | HFmt _ _ st v => negb (has_plain st) && pfree v
